@@ -381,3 +381,114 @@ func c20Gen(args []string) error {
 	}
 	return w.Close()
 }
+
+// ---- C29 on the shipped cancellable parsers: cancel from the listener at chosen events
+
+func init() { register("c29-shipped", c29Shipped) }
+
+type c29Row struct {
+	Pkg    string    `json:"pkg"`
+	GenErr string    `json:"genErr"`
+	Ran    bool      `json:"ran"`
+	Bad    []string  `json:"bad"`
+	Cancel [][][]int `json:"cancel"` // per text, per cancel point (first: -1 = baseline): [kind, events, 0, cancelled ? 0 : -1]
+	Texts  []string  `json:"texts"`
+}
+
+func c29RunOne(parser, text string, cancelAt int) (row []int, bad string) {
+	defer func() {
+		if r := recover(); r != nil {
+			row, bad = []int{3, 0, 0, -1}, fmt.Sprint("panic: ", r)
+		}
+	}()
+	ctx, cancel := context.WithCancel(context.Background())
+	defer cancel()
+	events, at := 0, -1
+	if cancelAt == 0 {
+		at = 0
+		cancel()
+	}
+	on := func() {
+		events++
+		if events == cancelAt {
+			at = 0
+			cancel()
+		}
+	}
+	var err error
+	switch parser {
+	case "js":
+		var s js.TokenStream
+		var p js.Parser
+		l := func(t js.NodeType, off, end int) { on() }
+		s.Init(text, l)
+		p.Init(func(js.SyntaxError) bool { return true }, l)
+		err = p.ParseModule(ctx, &s)
+	case "tm":
+		var s tm.TokenStream
+		var p tm.Parser
+		l := func(t tm.NodeType, off, end int) { on() }
+		s.Init(text, l)
+		p.Init(func(tm.SyntaxError) bool { return true }, l)
+		err = p.ParseFile(ctx, &s)
+	default:
+		var lx test.Lexer
+		var p test.Parser
+		lx.Init(text)
+		p.Init(func(t test.NodeType, fl test.NodeFlags, off, end int) { on() })
+		err = p.ParseTest(ctx, &lx)
+	}
+	kind := 1
+	switch {
+	case err == nil:
+	case err == context.Canceled:
+		kind = 2
+	default:
+		kind = 0
+	}
+	return []int{kind, events, 0, at}, ""
+}
+
+// c29-shipped <out.ndjson> <stride>
+func c29Shipped(args []string) error {
+	stride, _ := strconv.Atoi(args[1])
+	w, err := newNDWriter(args[0])
+	if err != nil {
+		return err
+	}
+	var jsTexts, testTexts, tmTexts []string
+	for k := 0; k < 6; k++ {
+		jsTexts = append(jsTexts, strings.Repeat("a = 1;\n", k*3)+strings.Repeat("f((a, b) => a + b, async (x) => x / 2, /re/.test(s) ? (y) => y : z);\n", 60))
+		testTexts = append(testTexts, strings.Repeat("decl1(a) ", 100+k*7)+strings.Repeat("eval(4.1 as 2 + 3 + 4 + 5) decl2 ", 40))
+	}
+	b, err := os.ReadFile(filepath.Join(repoDir(), "parsers", "tm", "textmapper.tm"))
+	if err == nil {
+		tmTexts = append(tmTexts, string(b))
+	}
+	for _, set := range []struct {
+		parser string
+		texts  []string
+	}{{"js", jsTexts}, {"test", testTexts}, {"tm", tmTexts}} {
+		row := c29Row{Pkg: "shipped-" + set.parser, Ran: true, Bad: []string{}, Cancel: [][][]int{}, Texts: []string{}}
+		for ti, text := range set.texts {
+			base, bad := c29RunOne(set.parser, text, -1)
+			if bad != "" {
+				row.Bad = append(row.Bad, bad)
+			}
+			rows := [][]int{base}
+			for k := ti % stride; k <= base[1]+1; k += stride {
+				r, bad := c29RunOne(set.parser, text, k)
+				if bad != "" && len(row.Bad) < 10 {
+					row.Bad = append(row.Bad, fmt.Sprintf("text %d cancel at %d: %s", ti, k, bad))
+				}
+				rows = append(rows, r)
+			}
+			row.Cancel = append(row.Cancel, rows)
+			row.Texts = append(row.Texts, fmt.Sprintf("%s text #%d (%d bytes)", set.parser, ti, len(text)))
+		}
+		if err := w.Write(&row); err != nil {
+			return err
+		}
+	}
+	return w.Close()
+}
